@@ -423,7 +423,7 @@ def _worker(inp, outp):
             bare, ctx = False, "plain"
         if toks[-1:] == [["A", ""]]:                   # the dangling '&' must stay flush with the end of input
             ctx = "plain"
-        tail = "" if w == "mhtml_raw" else rng.choice(NONASCII)
+        tail = rng.choice(NONASCII)
         pre, post = CONTEXTS[ctx]
         if bare:
             full = [["T", ""]] + pre + toks + post
@@ -752,13 +752,16 @@ def run(ctx):
                    ("AlphaQ7", 6), ("AlphaQ8", 6), ("AlphaT3", 5), ("AlphaT", 5), ("AlphaT2", 5)]
         gens = [("AlphaT", 4, 0), ("AlphaT2", 4, 0), ("AlphaQ3", 6, 0), ("AlphaQ4", 5, 0), ("AlphaQ5", 5, 0),
                 ("AlphaQ6", 4, 0), ("AlphaQ7", 6, 0), ("AlphaQ8", 5, 0), ("AlphaT3", 4, 0), ("AlphaQ1", 5, 5), ("AlphaQ2", 5, 5)]
-        sample5, n_eml, n_msgfile = 40000, 5000, 1200
+        sample5, n_eml, n_msgfile = 25000, 4000, 800
     else:
         theorem = [("AlphaQ1", 4), ("AlphaQ2", 4), ("AlphaQ4", 5), ("AlphaQ5B", 5), ("AlphaQ6", 4),
                    ("AlphaQ7", 5), ("AlphaQ8", 5)]
         gens = [("AlphaQ1", 4, 0), ("AlphaQ2", 4, 0), ("AlphaQ4", 5, 0), ("AlphaQ5", 4, 0), ("AlphaQ6", 3, 0),
                 ("AlphaQ7", 5, 0), ("AlphaQ8", 5, 0)]
         sample5, n_eml, n_msgfile = 0, 1200, 160
+    if os.environ.get("C17_ONLY"):                         # development aid: "AlphaT3:4,AlphaQ8:5" restricts both lists
+        gens = [(a, int(n), 0) for a, n in (x.split(":") for x in os.environ["C17_ONLY"].split(","))]
+        theorem = [(a, n) for a, n, _ in gens]
     _theorems(ctx, theorem)
     ctx.log(f"theorem + sensitivity runs done ({_t()}s)")
 
@@ -857,10 +860,12 @@ def _corrupt_demo():
     tk = lambda *ts: [{"k": k, "n": n} for k, n in ts]
     good = {"a": "Obs", "w": "html", "eof": True, "html": "",
             "toks": tk(("T", ""), ("S", "noscript"), ("T", ""), ("S", "img"), ("E", "noscript"), ("T", "")), "seen": [1, 6],
-            "seq": [1, 6]}
+            "body": [1, 6], "seq": [1, 6], "meta": True, "del": [2, 3, 4, 5], "same": True}
     variants = {"recorded": good,
-                "seen += hidden position 3": dict(good, seen=[1, 3, 6], seq=[1, 3, 6]),
-                "seen -= visible position 6": dict(good, seen=[1], seq=[1]),
+                "seen += hidden position 3": dict(good, seen=[1, 3, 6], body=[1, 3, 6], seq=[1, 3, 6]),
+                "seen -= visible position 6": dict(good, seen=[1], body=[1], seq=[1]),
+                "visible word 6 only in the title (body -= 6)": dict(good, body=[1], seq=[1]),
+                "extraction with the removed element deleted differs (same = FALSE)": dict(good, same=False),
                 "order of the two visible words swapped": dict(good, seq=[6, 1]),
                 "token 5 </noscript> -> </div> (element now unclosed: DON'T-CARE, accepted)":
                     dict(good, toks=good["toks"][:4] + tk(("E", "div")) + good["toks"][5:]),
